@@ -564,4 +564,13 @@ def loadsStrArray (s : List Char) : Option (List (List Char)) :=
   | b :: r => if b = '[' then (if r = [']'] then some [] else parseStrItems r.length r) else none
 
 
+/-! ### inline constants of a query (`SQLiteValue.__str__`): the literal written into the SQL text for a value -/
+
+/-- `self.quote_str(datetime2timestamp(value))` (between the quotes) -/
+def constDatetimeText (x : DateTime) : List Char := datetime2timestamp x
+/-- `self.quote_str(str(value))` for a date: `str(date)` is `isoformat()` -/
+def constDateText (x : Date) : List Char := dateToText x
+/-- `self.quote_str(value.isoformat())` for a time -/
+def constTimeText (t : Time) : List Char := timeToText t
+
 end PonyVerif.Model.Store
